@@ -22,6 +22,8 @@ open VaxisModel.Model.ParserRunIO
 def parseEv (t : String) : Option Ev :=
   if t = "p" then some .pause
   else if t = "c" then some .close
+  else if t = "w" then some .wait
+  else if t = "g" then some .go
   else if t.startsWith "d" then (hexBytes? (t.drop 1).toString).map .data
   else none
 
@@ -29,7 +31,7 @@ def parseEv (t : String) : Option Ev :=
 def parseScript (s : String) : Option (List Ev) :=
   let parts := s.splitOn ","
   match parts.getLast? with
-  | some e => if e = "E" ∨ e = "R" then parts.dropLast.mapM parseEv else none
+  | some e => if e = "E" ∨ e = "R" ∨ e = "X" then parts.dropLast.mapM parseEv else none
   | none => none
 
 /-- Byte segments between lone ESCs (ESC as the last byte before a pause). -/
@@ -37,11 +39,22 @@ def segments : List Ev → List Nat → List (List Nat)
   | [], cur => [cur]
   | .data l :: rest, cur => segments rest (cur ++ l)
   | .close :: rest, cur => segments rest cur
+  | .wait :: rest, cur => segments rest cur
+  | .go :: rest, cur => segments rest cur
   | .pause :: rest, cur =>
     if cur.getLast? = some 0x1B then cur :: segments rest [] else segments rest cur
 
 /-- pauses only matter after a lone ESC; but a pause resets "last byte" for the next one -/
 def wantEsc (evs : List Ev) : Nat := (segments evs []).length - 1
+
+/-- A `wait` means the timer expired before the following bytes arrived but its callback ran late:
+    the gap *is* the delay.  The property leaves both readings open — the ESC was lone (a pause) or
+    it was prompt (nothing) — but nothing else: every way of reading each `wait`. -/
+def readings : List Ev → List (List Ev)
+  | [] => [[]]
+  | .wait :: rest => (readings rest).flatMap fun r => [.pause :: r, r]
+  | .go :: rest => readings rest
+  | e :: rest => (readings rest).map (e :: ·)
 
 def verdict (evs : List Ev) (impl : String) : String :=
   match impl.splitOn " | " with
@@ -58,27 +71,38 @@ def verdict (evs : List Ev) (impl : String) : String :=
     else if !flags.contains "immut-ok" then s!"FAIL a delivered sequence was modified before Finish ({flagsS})"
     else if evs.contains .close then "ok"
     else
-      let nEsc := (toks.filter (· = "C:1b")).length
-      if nEsc ≠ wantEsc evs then
-        s!"FAIL[esc-count] {nEsc} Escape reports for {wantEsc evs} lone ESCs"
-      else
-        let segsM := (segments evs []).map Spec.VT500.decodeMarked
+      let body := C02.mergePrints ((toks.dropLast).filter (· ≠ "X"))
+      let devs : List Spec.VT500.Dev :=
+        [{}, { lazyST := true }, { c0ClearsST := true }, { lazyST := true, c0ClearsST := true }]
+      -- does the implementation's output agree with the Spec under this reading of the script?
+      -- 2 = yes, 1 = only up to C02's recorded deviations (judged there), 0 = no
+      let judge (ev : List Ev) : Nat :=
+        let segsM := (segments ev []).map Spec.VT500.decodeMarked
         let segs := segsM.map (·.map Spec.VT500.unmark)
-        let body := C02.mergePrints ((toks.dropLast).filter (· ≠ "X"))
         let (out, flush) := Spec.VT500.runWithEscKeys segs
-        if (out ++ flush).any C02.tooBig then "-" else
+        if (out ++ flush).any C02.tooBig then 1 else
         if body = C02.mergePrints (out.map C02.specTok) || body = C02.mergePrints ((out ++ flush).map C02.specTok)
-        then "ok" else
-        -- C02's recorded deviations (ST suppression details, invalid byte after a Prepend character)
-        -- are judged by C02 on the same streams; here they are tolerated, anything else is a failure
-        let devs : List Spec.VT500.Dev :=
-          [{}, { lazyST := true }, { c0ClearsST := true }, { lazyST := true, c0ClearsST := true }]
-        if devs.any fun d =>
+        then 2
+        else if devs.any fun d =>
             let (oM, fM) := Spec.VT500.runWithEscKeysD d segsM
             C02.relToks body (C02.mergePrints (oM.map C02.specTokM)) ||
             C02.relToks body (C02.mergePrints ((oM ++ fM).map C02.specTokM))
-        then "-"
-        else s!"FAIL[after-esc-key] spec requires [{" ".intercalate (C02.mergePrints (out.map C02.specTok))}]"
+        then 1 else 0
+      if evs.contains .wait then
+        let js := (readings evs).map judge
+        if js.contains 2 then "ok" else if js.contains 1 then "-"
+        else "FAIL[esc-boundary] neither reading of the delayed timer (lone ESC / prompt ESC) explains the items"
+      else
+        let nEsc := (toks.filter (· = "C:1b")).length
+        if nEsc ≠ wantEsc evs then
+          s!"FAIL[esc-count] {nEsc} Escape reports for {wantEsc evs} lone ESCs"
+        else match judge evs with
+          | 2 => "ok"
+          | 1 => "-"
+          | _ =>
+            let segs := (segments evs []).map Spec.VT500.decode
+            let (out, _) := Spec.VT500.runWithEscKeys segs
+            s!"FAIL[after-esc-key] spec requires [{" ".intercalate (C02.mergePrints (out.map C02.specTok))}]"
   | _ => "FAIL malformed harness line"
 
 def step (line : String) : String :=
@@ -88,9 +112,14 @@ def step (line : String) : String :=
   | ["life", _, sc, cl] =>
     match parseScript sc, C02.parseClusters cl with
     | some evs, some tbl =>
-      let (items, sys) := runEvents genTable Gen.ParserTable.timerClearsIgnoreST (C02.lookupCl tbl) evs
-      let flags := (if sys.chanClosed ∧ sys.pc = .done then "closed wc " else "") ++ "immut-ok"
-      let mc := " ".intercalate (items.map C02.itemTok) ++ " | " ++ flags
+      let late := sc.endsWith ",X" || sc = "X"
+      let cfg : Cfg := { clearsST := Gen.ParserTable.timerClearsIgnoreST, guarded := Gen.ParserTable.timerGuarded }
+      let (items, sys) := runEvents genTable cfg (C02.lookupCl tbl) late evs
+      let panicked := items.contains (.seq .panic)
+      let flags := if panicked then "-" else
+        (if sys.chanClosed ∧ sys.pc = .done then "closed wc " else "") ++ "immut-ok"
+      let mc := if panicked then "! | send-on-closed-channel"
+                else " ".intercalate (items.map C02.itemTok) ++ " | " ++ flags
       s!"{mc}\t{impl}\t{verdict evs impl}"
     | _, _ => "bad-op\tbad-op\tbad-op"
   | _ => "bad-op\tbad-op\tbad-op"
